@@ -16,6 +16,7 @@ import (
 	"sort"
 	"strings"
 	"time"
+	"verif/simrt"
 
 	"verif/pkg/prng"
 	"verif/pkg/proto"
@@ -68,6 +69,8 @@ type Node struct {
 	States   map[uint64]struct{}
 	Samples  []json.RawMessage
 	guard    *guardBuf
+	// prefill != nil: decode() hands out receivers that these bytes were decoded into first
+	prefill []byte
 	// KnownExamples holds the first scenario per open known finding this process met.
 	KnownExamples []*Replay
 }
@@ -278,6 +281,12 @@ func Main() {
 			cur.WriteAt([]byte(fmt.Sprintf("%-12d", i)), 0)
 		}
 		c := &Ctx{N: n, Run: i, R: prng.Derive(batch.Seed, batch.Property, uint64(i))}
+		if batch.Property != "C14" {
+			// pooled objects never survive from one run to the next (C14 models pools under
+			// its own scheduler and resets them per scenario)
+			simrt.ModelPools(true)
+			simrt.ResetPools()
+		}
 		t0 := time.Now()
 		rp := fn(c)
 		if tf := os.Getenv("VERIF_TIMING"); tf != "" {
@@ -364,6 +373,10 @@ func replayMain(file string) int {
 	n, err := newNode(batch)
 	if err != nil {
 		fatal(err)
+	}
+	if rp.Property != "C14" {
+		simrt.ModelPools(true)
+		simrt.ResetPools()
 	}
 	if rp.Scenario.Kind == "rerun" {
 		// the recorded case killed the process: run that run again, whole
